@@ -53,6 +53,11 @@ def plan(seed, tier):
         for hi, hs in enumerate(["0", "1", "random"]):
             cases.append({"class": "api", "group": g, "hashseed": hs, "workers": [1, 3, 8][hi], "env": {"PYTHONHASHSEED": hs},
                           "repeat": False, "ensemble": True, "cost": 20})
+    # repeats inside one process without touching numpy's global generator again: every random choice of the
+    # analysis must be governed by the seed handed to the API (anagram-rich database, target-only / decoy FASTA / none)
+    for g in range(6 if tier == "quick" else 60):
+        cases.append({"class": "repeat", "group": 300 + g, "hashseed": "0", "workers": [1, 2][g % 2], "env": {"PYTHONHASHSEED": "0"},
+                      "fasta_mode": ["target_only", "target_only", "decoys", "none"][g % 4], "cost": 15})
     ncli = 1 if tier == "quick" else 3
     for g in range(ncli):
         for hs in (["0", "random"] if tier == "quick" else ["0", "1", "random"]):
@@ -65,13 +70,13 @@ def plan(seed, tier):
     return cases
 
 
-MANDATORY_CLASSES = ["api", "cli"]
+MANDATORY_CLASSES = ["api", "cli", "repeat"]
 
 
 def build_api(case, d, vseed):
     rng = core.seed_seq(vseed, "C08", "api", case["group"])  # independent of the hash seed
     g = case["group"]
-    fasta_mode = ["decoys", "target_only", "none"][g % 3]
+    fasta_mode = case.get("fasta_mode") or ["decoys", "target_only", "none"][g % 3]
     learner = ["percolator", "svc", "linear"][(g // 3 + g) % 3]
     spec = dict(folds=int(2 + g % 3), seed=int(rng.integers(1 << 30)), test_fdr=0.1, train_fdr=0.1, max_iter=2,
                 peps_algorithm="qvality", delay=0.003)
@@ -83,9 +88,9 @@ def build_api(case, d, vseed):
         tab = psm.psm_table(rng, n_spectra=int(rng.integers(250, 400)), mult_max=3, key_cols=("ExpMass",), ties=True,
                             levels=("ModifiedPeptide",), pep_pool=20)
     else:
-        db = prot.protein_db(rng, n_prot=90, anagrams=12)
-        tab = prot.psm_table_for_db(rng, db, n_spectra=int(rng.integers(500, 700)), styles=("plain", "mod_sq", "flank"), sep=2.0,
-                                    ties=(fasta_mode == "decoys"))
+        db = prot.protein_db(rng, n_prot=90, anagrams=40 if case.get("class") == "repeat" else 12)
+        tab = prot.psm_table_for_db(rng, db, n_spectra=int(rng.integers(500, 700)), styles=("plain", "mod_sq", "flank"),
+                                    sep=2.0, ties=(fasta_mode == "decoys"))
         if learner == "percolator":
             # the built-in model would use the unique row id as a feature and never produce tied scores
             tab["df"] = tab["df"].drop(columns=["rid"])
@@ -151,6 +156,37 @@ def run_api(case):
                 res.violate("differs_within_process", ",".join(k for k in a if a.get(k) != b.get(k)), second_status=out2["status"], **meta)
         res["sample"] = dict(meta, hashseed=case["hashseed"], workers=case["workers"], files=sorted(out.get("files", {})))
     res["nontrivial"] = True
+    return res
+
+
+def run_repeat(case):
+    res = Result(case, key=f"repeat/{case['group']}")
+    with core.scratch("c08r") as d:
+        spec, meta = build_api(case, d, case["seed"])
+        spec.update(dest=str(d / "out"), workers=case["workers"], chunk_sizes={"CHUNK_SIZE_READ_ALL_DATA": 97, "CONFIDENCE_CHUNK_SIZE": 131})
+        outs = []
+        for k in range(3):
+            o = pipeline_main.run(dict(spec, dest=str(d / f"out{k}"), no_np_seed=(k > 0)))
+            np.random.random(int(1 + k))  # whatever else the process does with the global generator in between
+            res.count("pipeline_runs")
+            outs.append(o)
+        res["meta"] = meta
+        if outs[0]["status"] != "ok":
+            if all(o["status"] != "ok" and o.get("sig") == outs[0].get("sig") for o in outs):
+                res["status"] = "refused" if outs[0].get("explicit") else "inconclusive"
+                res["note"] = str(outs[0].get("sig"))
+                return res
+        for k in (1, 2):
+            a = digest_of(outs[0]) if outs[0]["status"] == "ok" else {}
+            b = digest_of(outs[k]) if outs[k]["status"] == "ok" else {}
+            if a != b or outs[0]["status"] != outs[k]["status"]:
+                which = [kk for kk in set(a) | set(b) if a.get(kk) != b.get(kk)]
+                files = sorted(f for f in set((a.get("files") or {})) | set((b.get("files") or {}))
+                               if (a.get("files") or {}).get(f) != (b.get("files") or {}).get(f))
+                res.violate("differs_within_process", ",".join(sorted(which)), files=files, statuses=[o["status"] for o in outs], repeat=k, **meta)
+                break
+        res["sample"] = dict(meta, workers=case["workers"], files=sorted(outs[0].get("files", {})))
+        res["nontrivial"] = outs[0]["status"] == "ok"
     return res
 
 
@@ -248,7 +284,7 @@ def _run_cli(case, attempt):
 
 
 def run_case(case):
-    return {"api": run_api, "cli": run_cli}[case["class"]](case)
+    return {"api": run_api, "cli": run_cli, "repeat": run_repeat}[case["class"]](case)
 
 
 def finalize(cases, results, tier):
